@@ -38,6 +38,15 @@ ints), with such keys at every level of the tree and inside the inserted
 values.  The expected path of a node is the list of keys walked, compared
 key by key (never through the formatted path).
 
+One call, several members: `drv_one_call_aliasing` hands the SAME node object
+to one call for two or three of the members it stores (constructors of
+pg.Object / functor / pg.Dict / pg.List in every spelling, update, rebind,
+extend, slice assignment, raw containers that are converted on the way in,
+clone(override=...)), with the occurrences side by side or at different
+depths of raw containers, and demands that every node ends in exactly one
+place; the history alphabets carry the same inputs for the value classes
+whose source denotes one object (ALIAS_VALUES).
+
 case_id = <container>.<operation>[@context][!raised][[key:<family>]]/<violation kind>;
 the value class / index of the input goes to the key only; `[key:<family>]` is
 present only if the violation needs keys of that family (the same history over
@@ -353,6 +362,8 @@ KEY_VALUES = [
      "root_path=pg.KeyPath([#K, 0]))}, root_path=pg.KeyPath(['q', #N]))"),
 ]
 CORE_VALUES = ('fresh', 'parented-in-tree', 'detached')
+# value classes whose source denotes ONE node object however often it is written
+ALIAS_VALUES = ('parented-elsewhere', 'parented-in-tree', 'detached')
 _FN = ('lambda k, v: pg.Dict(rb=pg.Dict(q=1)) if isinstance(v, int) else v, '
        'raise_on_no_change=False')
 
@@ -519,6 +530,12 @@ def list_ops(L, intree, core_target=False, values=None, target=None,
     add('setitem@typecheck_off', vl,
         f'with pg.enable_type_check(False): {L}[0] = {v}')
     add('add', vl, f'{L} = {L} + [{v}]')
+    if vl in ALIAS_VALUES:
+      # one node object twice in one call, at different depths (see also
+      # drv_one_call_aliasing); `two/...`, `step2/...` above are the siblings
+      add('extend', f'direct+nested/{vl}', f'{L}.extend([{v}, [{v}]])')
+      add('setitem-slice', f'nested+direct/{vl}', f"{L}[0:1] = [{{'z': {v}}}, {v}]")
+      add('rebind-multi', f'direct+nested/{vl}', f'{L}.rebind({{0: {v}, 1: [{v}]}})')
   add.vclass = None
   add('extend', 'symbolic-list-with-children', f'{L}.extend(ext.j)')
   add('extend', 'self', f'{L}.extend({L})')
@@ -683,6 +700,11 @@ def dict_ops(D, intree, core_target=False, keys=('a', 'b'), nk='z', nk2='y2',
       add('rebind-plain-string-key', f'new/{vl}', f'{D}.rebind({{{nk!r}: {v}}})')
       add('rebind-formatted-key', f'new/{vl}',
           f'{D}.rebind({{str(pg.KeyPath([{nk!r}])): {v}}})')
+    if vl in ALIAS_VALUES:
+      add('update', f'direct+nested/{vl}', f'{D}.update({{{k0!r}: {v}, {nk!r}: [{v}]}})')
+      add('rebind-multi', f'nested+direct/{vl}',
+          f"{D}.rebind({{{p0}: {{'z': {v}}}, {pn}: {v}}})")
+      add('setitem', f'raw-holding-twice/{vl}', f"{D}[{nk!r}] = {{'p': {v}, 'q': [{v}]}}")
   add.vclass = None
   add('delitem', '', f'del {D}[{k0!r}]', True)
   add('delattr', '', _delattr(D, k0))
@@ -778,6 +800,10 @@ def object_ops(O, intree, core_target=False, fields=('x', 'y'), values=None,
     if not _ident(f0):
       add('rebind-plain-string-key', vl, f'{O}.rebind({{{f0!r}: {v}}})')
       add('rebind-formatted-key', vl, f'{O}.rebind({{str(pg.KeyPath([{f0!r}])): {v}}})')
+    if vl in ALIAS_VALUES:
+      add('rebind', f'direct+nested/{vl}', rb((f0, v), (f1, f'[{v}]')))
+      add('setattr', f'raw-holding-twice/{vl}',
+          _setattr(O, f0, f"{{'p': {v}, 'q': [{v}]}}"))
   add.vclass = None
   add('rebind', 'reset-default', rb((f0, 'pg.MISSING_VALUE')), True)
   add('rebind', 'swap', rb((f0, g1), (f1, g0)), True)
@@ -851,6 +877,9 @@ def deep_rebind_ops(kind):
     add('several-paths',
         f"r.rebind({{'l[0]': pg.Insertion({V}), 'd.k[0]': pg.MISSING_VALUE}}, skip_notification=True)",
         ctx='@skip_notification')
+    add('several-paths',
+        f"with pg.notify_on_change(False): r.rebind({{'l[0]': pg.Insertion({V}), 'd.k[0]': pg.MISSING_VALUE}})",
+        ctx='@notify_off')
     add('nested-target/list', f"r.l.rebind({{'[0].x': {V}, '[1].x[0]': pg.Insertion({V}), '[3]': pg.MISSING_VALUE}})", True)
   elif kind == 'objtree':
     add('one-path', f"r.rebind({{'x.p': {V}}})", True)
@@ -866,6 +895,9 @@ def deep_rebind_ops(kind):
     add('several-paths',
         f"r.rebind({{'y[0]': pg.Insertion({V}), 'x.p': pg.MISSING_VALUE}}, skip_notification=True)",
         ctx='@skip_notification')
+    add('several-paths',
+        f"with pg.notify_on_change(False): r.rebind({{'y[0]': pg.Insertion({V}), 'x.p': pg.MISSING_VALUE}})",
+        ctx='@notify_off')
     add('nested-target/object', f"r.y[2].rebind({{'x.w': {V}, 'y': [{V}]}})")
   elif kind == 'rootlist':
     add('one-path', f"r.rebind({{'[0].x': {V}}})", True)
@@ -877,6 +909,9 @@ def deep_rebind_ops(kind):
     add('several-paths',
         f"r.rebind({{'[0]': pg.Insertion({V}), '[2]': pg.MISSING_VALUE}}, skip_notification=True)",
         ctx='@skip_notification')
+    add('several-paths',
+        f"with pg.notify_on_change(False): r.rebind({{'[1][0]': pg.Insertion({V}), '[2].x.p': {V}}})",
+        ctx='@notify_off')
   elif kind == 'twins':
     add('swap-equal-nodes/list', "r.rebind({'l[0]': r.l[4], 'l[4]': r.l[0]})", True)
     add('swap-equal-nodes/list', "r.rebind({'l[1]': r.l[3], 'l[3]': r.l[1], 'p[0]': r.p[1], 'p[1]': r.p[0]})")
@@ -924,6 +959,9 @@ def deep_rebind_ops(kind):
     add('several-paths',
         f"r.rebind({{'l[0]': pg.Insertion({W}), 'd.k[0]': pg.MISSING_VALUE}}, skip_notification=True)",
         ctx='@skip_notification')
+    add('several-paths',
+        f"with pg.notify_on_change(False): r.rebind({{'l[0]': pg.Insertion({W}), 'd.k[0]': pg.MISSING_VALUE}})",
+        ctx='@notify_off')
     add('typed-reset', "r.rebind({'d': pg.MISSING_VALUE, 'l': pg.MISSING_VALUE})")
   return ops
 
@@ -1956,8 +1994,560 @@ def _self_insertion_witness(setup, stmt):
           'assert p.returncode == 0, p.stderr.decode()[-200:]\n')
 
 
+# --------------------------------------------------------------------------
+# One call, one node object supplied for several members.
+#
+# "One node object never appears in two places": a call that is handed the
+# SAME node object for two (or three) of the members it stores -- constructor
+# arguments, the values of one update / rebind, the elements of one extend /
+# slice assignment, the items of a raw container that is being converted --
+# must leave every node with exactly one location, whatever the library does
+# about the repeated occurrence (copy it, move it).  The occurrences may be
+# direct members of the container the call addresses (`siblings`) or sit at
+# different depths inside raw containers that the call converts (`nested`).
+#
+# case_id = one-call-aliasing/<container>.<entry>[@context][!raised]/<siblings|nested>/<kind>
+# when the violation needs the aliasing; a violation that the same call shows
+# with a distinct node per occurrence is recorded under the id of the history
+# drivers (<container>.<entry>[@context][!raised]/<kind>).
+# --------------------------------------------------------------------------
+
+CLASS_F = ("@pg.functor([('x', pg.typing.Any(default=None)), ('y', pg.typing.Any(default=None))])\n"
+           "def F(x, y): return 0\n")
+CLASS_V = ("@pg.members([('args', pg.typing.List(pg.typing.Any()))], init_arg_list=['*args'])\n"
+           "class V(pg.Object): allow_symbolic_assignment = True\n")
+CLASS_P = ("_D = pg.typing.Dict().noneable()\n"
+           "@pg.members([('x', _D), ('y', _D), ('z', pg.typing.List(_D).noneable())])\n"
+           "class P(pg.Object): allow_symbolic_assignment = True\n")
+
+
+@pg.functor([('x', pg.typing.Any(default=None)), ('y', pg.typing.Any(default=None))])
+def F(x, y):  # pylint: disable=unused-argument
+  return 0
+
+
+@pg.members([('args', pg.typing.List(pg.typing.Any()))], init_arg_list=['*args'])
+class V(pg.Object):
+  allow_symbolic_assignment = True
+
+
+_D = pg.typing.Dict().noneable()
+
+
+@pg.members([('x', _D), ('y', _D), ('z', pg.typing.List(_D).noneable())])
+class P(pg.Object):
+  """Members with Dict / List value specs (the supplied node must be a Dict)."""
+  allow_symbolic_assignment = True
+
+
+_ALIAS_EXT = "ext = pg.Dict(k=pg.Dict(v=pg.Dict(w=1)), j=[pg.Dict(e=1)])\n"
+# (label, statements that bind `n`)
+ALIAS_NODES = [
+    ('fresh-dict', "n = pg.Dict(g=pg.Dict(h=1))\n"),
+    ('fresh-list', "n = pg.List([pg.Dict(h=1), 2])\n"),
+    ('fresh-object', "n = A(x=pg.Dict(h=1))\n"),
+    ('empty-dict', "n = pg.Dict()\n"),
+    ('detached', _ALIAS_EXT + "n = ext.pop('k')\n"),
+    ('parented-elsewhere', _ALIAS_EXT + "n = ext.k\n"),
+    ('element-elsewhere', _ALIAS_EXT + "n = ext.j[0]\n"),
+    # mutators only: a node of the tree the call works on / a child of the
+    # container the call addresses ({IN} / {OWN} of the target).
+    ('parented-in-tree', "n = {IN}\n"),
+    ('own-child', "n = {OWN}\n"),
+]
+_DICT_NODES = ('fresh-dict', 'empty-dict', 'detached', 'parented-elsewhere',
+               'element-elsewhere')
+_CORE_NODES = ('fresh-dict', 'detached', 'parented-elsewhere', 'own-child')
+
+# (label, class that goes to the case id, preparation, expression per slot,
+#  the same with a distinct node n / n2 / n3 per occurrence).
+ALIAS_PLACEMENTS = [
+    ('siblings', 'siblings', '', ('n', 'n'), '', ('n', 'n2')),
+    ('direct+nested-dict', 'nested', '', ('n', "{'z': n}"), '', ('n', "{'z': n2}")),
+    ('direct+nested-list', 'nested', '', ('n', '[1, n]'), '', ('n', '[1, n2]')),
+    ('nested-dict+direct', 'nested', '', ("{'z': n}", 'n'), '', ("{'z': n}", 'n2')),
+    ('nested-list+direct', 'nested', '', ('[n]', 'n'), '', ('[n]', 'n2')),
+    ('nested+nested', 'nested', '', ('[n]', "{'z': {'zz': n}}"), '',
+     ('[n]', "{'z': {'zz': n2}}")),
+    ('nested-twice-in-one', 'nested', '', ('[n, n]', '5'), '', ('[n, n2]', '5')),
+    ('nested-twice-in-second', 'nested', '', ('5', "{'z': n, 'zz': [n]}"), '',
+     ('5', "{'z': n, 'zz': [n2]}")),
+    ('thrice', 'nested', '', ('n', '[n, n]'), '', ('n', '[n2, n3]')),
+    ('same-raw-dict-twice', 'nested', "c = {'z': n}\n", ('c', 'c'),
+     "c = {'z': n}\nc2 = {'z': n2}\n", ('c', 'c2')),
+    ('same-raw-list-twice', 'nested', "c = [n]\n", ('c', 'c'),
+     "c = [n]\nc2 = [n2]\n", ('c', 'c2')),
+    ('symbolic-holder+direct', 'nested', '', ('pg.Dict(z=n)', 'n'), '',
+     ('pg.Dict(z=n)', 'n2')),
+    ('direct+symbolic-holder', 'nested', "c = pg.List([n])\n", ('n', 'c'),
+     "c = pg.List([n2])\n", ('n', 'c')),
+    ('direct+object-holder', 'nested', '', ('n', 'A(x=n)'), '', ('n', 'A(x=n2)')),
+    ('direct+raw-holding-object', 'nested', '', ('n', '[A(x=[n])]'), '',
+     ('n', '[A(x=[n2])]')),
+]
+_CORE_PLACEMENTS = ('siblings', 'direct+nested-dict', 'nested-list+direct')
+_SIBLINGS_ONLY = ('siblings',)
+
+# Constructors: (entry, variant, statement with {V1} {V2}, placements or None,
+# the spelling nests an occurrence by itself).  A functor and a partial object
+# are pg.Objects: same entry, the variant tells them apart.
+ALIAS_CONSTRUCTORS = [
+    ('object.construct', 'kwargs', 'r = A(x={V1}, y={V2})', None, False),
+    ('object.construct', 'positional', 'r = A({V1}, {V2})', None, False),
+    ('object.construct', 'any-keyword', 'r = W(p={V1}, q={V2})', None, False),
+    ('object.construct', 'varargs', 'r = V({V1}, {V2})', None, False),
+    ('object.construct', 'one-member-list', 'r = A(x=[{V1}, {V2}])', None, True),
+    ('object.construct', 'one-member-dict', "r = A(y={{'p': {V1}, 'q': {V2}}})", None, True),
+    ('object.construct', 'inside-raw', "r = pg.Dict(o=[A(x={V1}, y={V2})])", None, False),
+    ('object.construct', 'typed-members', 'r = P(x={V1}, y={V2})', _SIBLINGS_ONLY, False),
+    ('object.construct', 'typed-list-member', 'r = P(z=[{V1}, {V2}])', _SIBLINGS_ONLY, True),
+    ('object.construct', 'typed-list+member', 'r = P(x={V1}, z=[{V2}])', _SIBLINGS_ONLY, True),
+    ('object.construct', 'typed-tree',
+     "r = C(m={{'p': {V1}}}, n={{}}, w=W(q={V2}), x=[{V1}])", None, True),
+    ('object.construct', 'partial', 'r = A.partial(x={V1}, y={V2})', None, False),
+    ('object.construct', 'partial-typed-members', 'r = P.partial(x={V1}, y={V2})',
+     _SIBLINGS_ONLY, False),
+    ('object.construct', 'functor-kwargs', 'r = F(x={V1}, y={V2})', None, False),
+    ('object.construct', 'functor-positional', 'r = F({V1}, {V2})', None, False),
+    ('object.construct', 'functor-partial', 'r = F.partial(x={V1}, y={V2})', None, False),
+    ('dict.construct', 'kwargs', 'r = pg.Dict(x={V1}, y={V2})', None, False),
+    ('dict.construct', 'raw-dict', "r = pg.Dict({{'x': {V1}, 'y': {V2}}})", None, False),
+    ('dict.construct', 'raw-dict+kwargs', "r = pg.Dict({{'x': {V1}}}, y={V2})", None, False),
+    ('dict.construct', 'pairs', "r = pg.Dict([('x', {V1}), ('y', {V2})])", None, False),
+    ('dict.construct', 'value_spec',
+     "r = pg.Dict({{'x': {V1}, 'y': {V2}}}, "
+     "value_spec=pg.typing.Dict([(pg.typing.StrKey(), pg.typing.Any())]))", None, False),
+    ('dict.construct', 'fromkeys', "r = pg.Dict.fromkeys(['x', 'y'], {V1})", _SIBLINGS_ONLY, False),
+    ('list.construct', 'list', 'r = pg.List([{V1}, {V2}])', None, False),
+    ('list.construct', 'tuple', 'r = pg.List(({V1}, 7, {V2}))', None, False),
+    ('list.construct', 'value_spec',
+     'r = pg.List([{V1}, {V2}], value_spec=pg.typing.List(pg.typing.Any()))', None, False),
+]
+
+# Mutators.  Targets: (label, tree, target expression, path of the target
+# from the root (formatted), a node of the tree outside the target).
+ALIAS_DICT_TARGETS = [
+    ('root', "r = pg.Dict(x=pg.Dict(old=1), y=2, k=pg.Dict(kk=pg.Dict()))\n", 'r', '', None),
+    ('nested', "r = pg.List([A(x=pg.Dict(x=pg.Dict(old=1), y=2, k=pg.Dict(kk=1))), "
+               "pg.Dict(g=pg.Dict(h=1))])\n", 'r[0].x', '[0].x', 'r[1]'),
+    ('typed', "r = C(m={'x': {'old': 1}, 'y': 2, 'k': {'kk': 1}}, n={'p': {}})\n",
+     'r.m', 'm', 'r.n.p'),
+]
+ALIAS_LIST_TARGETS = [
+    ('root', "r = pg.List([pg.Dict(old=1), 2, pg.Dict(old=3)])\n", 'r', '', None),
+    ('nested', "r = pg.Dict(a=A(y=[pg.Dict(old=1), 2, pg.Dict(old=3)]), "
+               "b=pg.Dict(g=pg.Dict(h=1)))\n", 'r.a.y', 'a.y', 'r.b'),
+    ('typed', "r = C(m={}, n={'p': {'g': {}}}, x=[{'old': 1}, 2, {'old': 3}])\n",
+     'r.x', 'x', 'r.n.p'),
+]
+ALIAS_OBJECT_TARGETS = [
+    ('root', "r = A(x=pg.Dict(old=1), y=2)\n", 'r', '', None),
+    ('nested', "r = pg.Dict(l=[A(x=pg.Dict(old=1), y=2)], b=pg.Dict(g=pg.Dict(h=1)))\n",
+     'r.l[0]', 'l[0]', 'r.b'),
+    ('any-keyword', "r = C(m={}, n={'p': {'g': {}}}, w=W(x={'old': 1}, y=2))\n",
+     'r.w', 'w', 'r.n.p'),
+]
+_OWN = {'dict': "{T}['x']", 'list': '{T}[0]', 'object': '{T}.x'}
+
+# (entry, variant, statement).  {T}: target, {P}: path prefix of the target
+# from the root, {V1} {V2}: the slots.
+ALIAS_DICT_MUTATORS = [
+    ('dict.update', 'dict', "{T}.update({{'x': {V1}, 'y': {V2}}})"),
+    ('dict.update', 'kwargs', "{T}.update(x={V1}, y={V2})"),
+    ('dict.update', 'pairs', "{T}.update([('x', {V1}), ('y', {V2})])"),
+    ('dict.update', 'new-keys', "{T}.update({{'p': {V1}, 'q': {V2}}})"),
+    ('dict.update', 'dict+kwargs', "{T}.update({{'p': {V1}}}, x={V2})"),
+    ('dict.ior', 'dict', "_t = {T}\n_t |= {{'x': {V1}, 'q': {V2}}}"),
+    ('dict.rebind', 'dict', "{T}.rebind({{'x': {V1}, 'y': {V2}}})"),
+    ('dict.rebind', 'kwargs', "{T}.rebind(x={V1}, y={V2})"),
+    ('dict.rebind', 'new-keys', "{T}.rebind({{'p': {V1}, 'q': {V2}}})"),
+    ('dict.rebind', 'child-paths', "{T}.rebind({{'k.kk': {V1}, 'k.p': {V2}}})"),
+    ('dict.rebind', 'own-and-child-path', "{T}.rebind({{'q': {V1}, 'k.p': {V2}}})"),
+    ('dict.rebind@skip_notification', 'dict',
+     "{T}.rebind({{'x': {V1}, 'q': {V2}}}, skip_notification=True)"),
+    ('dict.rebind@notify_parents_off', 'dict',
+     "{T}.rebind({{'x': {V1}, 'q': {V2}}}, notify_parents=False)"),
+    ('dict.setitem', 'raw-dict', "{T}['p'] = {{'x': {V1}, 'y': {V2}}}"),
+    ('dict.setitem', 'raw-list-replacing', "{T}['x'] = [{V1}, {V2}]"),
+    ('dict.setattr', 'raw-list', "{T}.p = [{V1}, {V2}]"),
+    ('dict.setdefault', 'raw-dict', "{T}.setdefault('p', {{'x': {V1}, 'y': {V2}}})"),
+    ('dict.clone-override', 'shallow', "res = {T}.clone(override={{'x': {V1}, 'y': {V2}}})"),
+    ('dict.clone-override', 'deep',
+     "res = {T}.clone(deep=True, override={{'x': {V1}, 'k.kk': {V2}}})"),
+]
+ALIAS_LIST_MUTATORS = [
+    ('list.extend', 'two', "{T}.extend([{V1}, {V2}])"),
+    ('list.extend', 'tuple', "{T}.extend(({V1}, 7, {V2}))"),
+    ('list.iadd', 'two', "_t = {T}\n_t += [{V1}, {V2}]"),
+    ('list.add', 'two', "res = {T} + [{V1}, {V2}]"),
+    ('list.append', 'raw-list', "{T}.append([{V1}, {V2}])"),
+    ('list.append', 'raw-dict', "{T}.append({{'x': {V1}, 'y': {V2}}})"),
+    ('list.insert', 'raw-list', "{T}.insert(0, [{V1}, {V2}])"),
+    ('list.setitem', 'raw-dict', "{T}[0] = {{'x': {V1}, 'y': {V2}}}"),
+    ('list.setitem-slice', 'same', "{T}[0:2] = [{V1}, {V2}]"),
+    ('list.setitem-slice', 'insert', "{T}[1:1] = [{V1}, {V2}]"),
+    ('list.setitem-slice', 'grow', "{T}[0:1] = [{V1}, 7, {V2}]"),
+    ('list.setitem-slice', 'shrink', "{T}[:] = [{V1}, {V2}]"),
+    ('list.setitem-slice', 'step2', "{T}[0:3:2] = [{V1}, {V2}]"),
+    ('list.setitem-slice', 'step-1', "{T}[::-1] = [{V1}, 7, {V2}]"),
+    ('list.rebind', 'set+set', "{T}.rebind({{0: {V1}, 1: {V2}}})"),
+    ('list.rebind', 'set+append', "{T}.rebind({{0: {V1}, 3: {V2}}})"),
+    ('list.rebind', 'insert+set', "{T}.rebind({{0: pg.Insertion({V1}), 1: {V2}}})"),
+    ('list.rebind', 'insert+insert',
+     "{T}.rebind({{0: pg.Insertion({V1}), 2: pg.Insertion({V2})}})"),
+    ('list.rebind', 'child-paths', "{T}.rebind({{'[0].old': {V1}, '[2].p': {V2}}})"),
+    ('list.rebind@skip_notification', 'insert+set',
+     "{T}.rebind({{0: pg.Insertion({V1}), 1: {V2}}}, skip_notification=True)"),
+    ('list.rebind@notify_parents_off', 'set+set',
+     "{T}.rebind({{0: {V1}, 1: {V2}}}, notify_parents=False)"),
+    ('list.clone-override', 'shallow', "res = {T}.clone(override={{0: {V1}, 1: {V2}}})"),
+    ('list.clone-override', 'deep',
+     "res = {T}.clone(deep=True, override={{0: {V1}, '[2].old': {V2}}})"),
+]
+ALIAS_OBJECT_MUTATORS = [
+    ('object.rebind', 'kwargs', "{T}.rebind(x={V1}, y={V2})"),
+    ('object.rebind', 'dict', "{T}.rebind({{'x': {V1}, 'y': {V2}}})"),
+    ('object.rebind', 'child-paths', "{T}.rebind({{'x.old': {V1}, 'x.p': {V2}}})"),
+    ('object.rebind', 'own-and-child-path', "{T}.rebind({{'y': {V1}, 'x.p': {V2}}})"),
+    ('object.rebind@skip_notification', 'kwargs',
+     "{T}.rebind(x={V1}, y={V2}, skip_notification=True)"),
+    ('object.rebind@notify_parents_off', 'kwargs',
+     "{T}.rebind(x={V1}, y={V2}, notify_parents=False)"),
+    ('object.setattr', 'raw-list', "{T}.x = [{V1}, {V2}]"),
+    ('object.setattr', 'raw-dict', "{T}.y = {{'p': {V1}, 'q': {V2}}}"),
+    ('object.clone-override', 'shallow', "res = {T}.clone(override={{'x': {V1}, 'y': {V2}}})"),
+    ('object.clone-override', 'deep',
+     "res = {T}.clone(deep=True, override={{'x.old': {V1}, 'y': {V2}}})"),
+    ('object.sym_init_args-update', 'dict',
+     "{T}.sym_init_args.update({{'x': {V1}, 'y': {V2}}})"),
+]
+# Issued at the root with the paths of the members of the (nested) target, and
+# across several containers of one tree.
+ALIAS_DEEP_MUTATORS = {
+    'dict': [('rebind-deep', 'dict-members', "r.rebind({{'{P}x': {V1}, '{P}q': {V2}}})"),
+             ('rebind-deep', 'dict-member+below',
+              "r.rebind({{'{P}x': {V1}, '{P}k.kk': {V2}}})")],
+    'list': [('rebind-deep', 'list-elements', "r.rebind({{'{P}[0]': {V1}, '{P}[1]': {V2}}})"),
+             ('rebind-deep', 'list-insert+below',
+              "r.rebind({{'{P}[0]': pg.Insertion({V1}), '{P}[1].p': {V2}}})")],
+    'object': [('rebind-deep', 'object-members', "r.rebind({{'{P}x': {V1}, '{P}y': {V2}}})"),
+               ('rebind-deep', 'object-member+below',
+                "r.rebind({{'{P}y': {V1}, '{P}x.old': {V2}}})")],
+}
+_ALIAS_ACROSS_TREE = ("r = pg.Dict(c=pg.Dict(x=pg.Dict(old=1)), l=[pg.Dict(old=1), 2], "
+                      "o=A(x=pg.Dict(old=1)), b=pg.Dict(g=pg.Dict(h=1)))\n")
+ALIAS_ACROSS_MUTATORS = [
+    ('rebind-deep', 'dict+list', "r.rebind({{'c.x': {V1}, 'l[0]': {V2}}})"),
+    ('rebind-deep', 'list+object', "r.rebind({{'l[0]': pg.Insertion({V1}), 'o.y': {V2}}})"),
+    ('rebind-deep', 'object+dict', "r.rebind({{'o.x': {V1}, 'c.q': {V2}}})"),
+    ('rebind-deep', 'object+root', "r.rebind({{'o.x.old': {V1}, 'q': {V2}}})"),
+    ('rebind-deep@skip_notification', 'dict+list',
+     "r.rebind({{'c.x': {V1}, 'l[0]': pg.Insertion({V2})}}, skip_notification=True)"),
+    ('dict.update', 'across-raw', "r.update({{'c': {{'x': {V1}}}, 'l': [{V2}], 'q': {V1}}})"),
+]
+# Contexts under which the same calls are made (the id carries the context
+# only if the violation is not there without it).
+ALIAS_CONTEXTS = [
+    ('notify_off', 'pg.notify_on_change(False)'),
+    ('typecheck_off', 'pg.enable_type_check(False)'),
+    ('allow_partial', 'pg.allow_partial(True)'),
+    ('writable_accessors', 'pg.allow_writable_accessors(True)'),
+]
+_ALIAS_ROOTS = ('r', 'res', 'ext')
+_ALIAS_HEAD = 'import pyglove as pg\n'
+
+
+def _alias_classes(body):
+  out = ''
+  if re.search(r'\bA[.(]|\b[CP][.(]', body):
+    out += CLASS_A
+  if re.search(r'\b[WC]\(', body):
+    out += CLASS_W
+  if re.search(r'\bC\(', body):
+    out += CLASS_C
+  if re.search(r'\bF[.(]', body):
+    out += CLASS_F
+  if re.search(r'\bV\(', body):
+    out += CLASS_V
+  if re.search(r'\bP[.(]', body):
+    out += CLASS_P
+  return out
+
+
+def _alias_check(env, before):
+  """Violations after the call: [(kind, message, assert source[, preparation])],
+  the most severe tree violation (at most one) first, then those about single
+  nodes."""
+  out = []
+  roots = []
+  for name in _ALIAS_ROOTS:
+    v = env.get(name)
+    if isinstance(v, Symbolic) and all(v is not o for _, o in roots):
+      roots.append((name, v))
+  n = env.get('n')
+  where, tree_vio = {}, []
+
+  def tree(name, root):
+    nodes = {}
+    tree_vio.extend(check_tree(root, name, nodes))
+    for i, (_, rn, keys) in nodes.items():
+      if i in where:          # one node object in two trees
+        a, b = _nav(*where[i]), _nav(rn, keys)
+        tree_vio.append(('node-in-two-places', (i, 'xdup'),
+                         f'the same node object is stored at {a} and at {b}',
+                         f'assert {a} is not {b}, "one node object stored in two trees"'))
+      else:
+        where[i] = (rn, keys)
+
+  for name, root in roots:
+    tree(name, root)
+  # A supplied node (n; n2, n3 in the control run): stored in one of the trees
+  # (checked above), or in / the root of a tree of its own, which its parent
+  # chain leads to.  Following the parent chain must never enter a tree at a
+  # node that does not store the node the chain came from.
+  for nm in ('n', 'n2', 'n3'):
+    x = env.get(nm)
+    if not isinstance(x, Symbolic) or id(x) in where:
+      continue
+    top, seen = x, set()
+    while (top.sym_parent is not None and id(top) not in seen
+           and id(top.sym_parent) not in where):
+      seen.add(id(top))
+      top = top.sym_parent
+    p = top.sym_parent
+    if p is not None and id(p) not in where:
+      out.append(('parent-cycle', f'the parent chain of {nm} does not end',
+                  f'_s, _t = set(), {nm}\nwhile _t is not None:\n'
+                  '  assert id(_t) not in _s, "parent cycle"\n  _s.add(id(_t)); _t = _t.sym_parent'))
+    elif p is not None:
+      up = nm + '.sym_parent' * len(seen)
+      out.append(('supplied-node-reports-parent-that-does-not-store-it',
+                  f'{up} is stored nowhere in the trees but its sym_parent is the tree node '
+                  f'{_nav(*where[id(p)])} (sym_path {str(top.sym_path)!r})',
+                  f'_y = {up}\nassert _y.sym_parent is None or any(v is _y for v in _y.sym_parent.sym_values()), '
+                  '"a node that was supplied to the call reports a parent that does not store it"'))
+    else:
+      tree(nm if top is x else nm + '.sym_root', top)
+      if id(x) not in where:
+        out.append(('supplied-node-reports-parent-that-does-not-store-it',
+                    f'{nm}.sym_parent is a {type(x.sym_parent).__name__} at path '
+                    f'{str(x.sym_parent.sym_path)!r} but {nm} is not reachable from {nm}.sym_root',
+                    f'assert any(v is {nm} for v in {nm}.sym_parent.sym_values()), '
+                    '"a node that was supplied to the call reports a parent that does not store it"'))
+    if out:
+      break
+  if tree_vio:
+    tree_vio.sort(key=lambda x: _PRIORITY.index(x[0]))
+    out.insert(0, (tree_vio[0][0], tree_vio[0][2], tree_vio[0][3]))
+  # nodes the call removed / replaced
+  for i, (node, rn, keys) in before.items():
+    if i in where or node is n:
+      continue
+    p = node.sym_parent
+    if p is not None and id(p) in where and where[id(p)][0] in _ALIAS_ROOTS:
+      nav, pnav = _nav(rn, keys), _nav(*where[id(p)])
+      out.append(('removed-node-keeps-parent',
+                  f'the node formerly at {nav} is no longer stored in the trees but its '
+                  f'sym_parent is still the tree node {pnav}',
+                  f'assert _x.sym_parent is not {pnav}, '
+                  '"removed node still reports a tree node as its parent"',
+                  f'_x = {nav}\n'))
+      break
+  return out
+
+
+def _alias_run(setup, call, wd):
+  """(raised or None, violations)."""
+  env = dict(_ENV_BASE)
+  env.update(F=F, V=V, P=P)
+  exec(setup, env)  # pylint: disable=exec-used
+  before = {}
+  for name in _ALIAS_ROOTS:
+    if isinstance(env.get(name), Symbolic):
+      collect(env[name], name, before)
+  raised = None
+  wd.arm()
+  try:
+    try:
+      exec(call, env)  # pylint: disable=exec-used
+    except _Hang:
+      return None, [('non-terminating', 'the call did not return within the time limit',
+                     'raise AssertionError("did not terminate")')]
+    except Exception as e:  # pylint: disable=broad-except
+      raised = e
+    try:
+      return raised, _alias_check(env, before)
+    except _Hang:
+      return raised, [('non-terminating-walk', 'walking the tree did not terminate',
+                       'raise AssertionError("tree walk did not terminate")')]
+  finally:
+    wd.disarm()
+
+
+def _alias_cases(quick, seed):
+  """Yields (entry, context label, placement label, placement class, node
+  label, variant, setup, call, control setup, control call)."""
+  r = rng(seed, 'c01-alias')
+  ctl_nodes = 'n2 = pg.clone(n, deep=True)\nn3 = pg.clone(n, deep=True)\n'
+
+  def wrap(stmt, ctx):
+    return stmt if ctx is None else f'with {ctx}:\n' + textwrap.indent(stmt, '  ')
+
+  turn = [seed]
+
+  def contexts(entry, core):
+    yield None, None
+    if '@' in entry:
+      return
+    if not quick:
+      yield from ALIAS_CONTEXTS
+    elif core:      # every other basic combination under one context, in turn
+      turn[0] += 1
+      if turn[0] % 8 < 4:
+        yield ALIAS_CONTEXTS[turn[0] % 8]
+    elif r.random() < 0.02:
+      yield r.choice(ALIAS_CONTEXTS)
+
+  def grid(entry, nodes, only=None, constructor=False, typed=False):
+    """Quick tier: the basic placements x the basic node classes in full
+    (40% of them on a typed target; constructors: the whole grid), a 3% sample
+    of the rest."""
+    for pl in ALIAS_PLACEMENTS:
+      if only is not None and pl[0] not in only:
+        continue
+      for nl, nsrc in nodes:
+        core = pl[0] in _CORE_PLACEMENTS and nl in _CORE_NODES
+        if quick and not constructor and r.random() > (
+            (0.4 if typed else 1) if core else 0.03):
+          continue
+        for cl, c in contexts(entry, core):
+          yield pl, nl, nsrc, cl, c
+
+  for entry, variant, stmt, only, nests in ALIAS_CONSTRUCTORS:
+    nodes = [(nl, ns) for nl, ns in ALIAS_NODES if '{' not in ns
+             and (nl in _DICT_NODES or 'typed' not in variant or variant == 'typed-tree')]
+    for (pl, pc, prep, (v1, v2), cprep, (c1, c2)), nl, nsrc, cl, c in grid(
+        entry, nodes, only, True):
+      yield (entry, cl, pl, 'nested' if nests else pc, nl, variant,
+             nsrc + prep, wrap(stmt.format(V1=v1, V2=v2), c),
+             nsrc + ctl_nodes + cprep, wrap(stmt.format(V1=c1, V2=c2), c))
+
+  groups = [('dict', ALIAS_DICT_TARGETS, ALIAS_DICT_MUTATORS),
+            ('list', ALIAS_LIST_TARGETS, ALIAS_LIST_MUTATORS),
+            ('object', ALIAS_OBJECT_TARGETS, ALIAS_OBJECT_MUTATORS)]
+  for tname, targets, mutators in groups:
+    for tl, tree, T, path, intree in targets:
+      P = (path + '.') if path else ''
+      deep = ALIAS_DEEP_MUTATORS[tname] if path else []
+      nodes = [(nl, ns.replace('{IN}', intree or '').replace('{OWN}', _OWN[tname].format(T=T)))
+               for nl, ns in ALIAS_NODES if intree is not None or '{IN}' not in ns]
+      for entry, variant, stmt in list(mutators) + deep:
+        for (pl, pc, prep, (v1, v2), cprep, (c1, c2)), nl, nsrc, cl, c in grid(
+            entry, nodes, typed=tl in ('typed', 'any-keyword')):
+          body = stmt.format(T=T, P=P, V1=v1, V2=v2).replace('.[', '[')
+          cbody = stmt.format(T=T, P=P, V1=c1, V2=c2).replace('.[', '[')
+          yield (entry, cl, pl, pc, nl, f'{tl}-target/{variant}',
+                 tree + nsrc + prep, wrap(body, c),
+                 tree + nsrc + ctl_nodes + cprep, wrap(cbody, c))
+  nodes = [(nl, ns.replace('{IN}', 'r.b').replace('{OWN}', 'r.c.x')) for nl, ns in ALIAS_NODES]
+  for entry, variant, stmt in ALIAS_ACROSS_MUTATORS:
+    for (pl, pc, prep, (v1, v2), cprep, (c1, c2)), nl, nsrc, cl, c in grid(entry, nodes):
+      yield (entry, cl, pl, 'nested' if variant == 'across-raw' else pc, nl,
+             f'across/{variant}', _ALIAS_ACROSS_TREE + nsrc + prep,
+             wrap(stmt.format(V1=v1, V2=v2), c),
+             _ALIAS_ACROSS_TREE + nsrc + ctl_nodes + cprep,
+             wrap(stmt.format(V1=c1, V2=c2), c))
+
+
+def drv_one_call_aliasing(tier, seed):
+  """The same node object supplied for several members in ONE call."""
+  quick = tier == 'quick'
+  nmut = len(ALIAS_DICT_MUTATORS) + len(ALIAS_LIST_MUTATORS) + len(ALIAS_OBJECT_MUTATORS)
+  rec = Recorder(
+      'C01', 'one node object supplied for two or three members in one call '
+      'ends in exactly one place',
+      scope=(f'{len(ALIAS_CONSTRUCTORS)} constructor spellings (pg.Object: keywords, '
+             'positional, any-keyword class, varargs, one raw member, typed members, '
+             'partial, functor; pg.Dict: keywords, raw dict, pairs, value_spec, fromkeys; '
+             f'pg.List: list, tuple, value_spec) and {nmut} batch mutator spellings '
+             '(update / |= / rebind incl. flags and child paths / extend / += / + / '
+             'slice assignments / raw containers assigned, appended, inserted / '
+             'clone(override=...)) on a root, a nested and a typed target each, rebind '
+             'issued at the root for the members of the nested target and across several '
+             f'containers; x {len(ALIAS_PLACEMENTS)} placements of the occurrences (both '
+             'direct members; direct + inside a raw dict / list in either order; both '
+             'nested; twice inside one raw container; three times; the same raw container '
+             'passed twice; inside a symbolic / object holder) x 9 classes of the node '
+             '(fresh Dict / List / Object with children, empty Dict, detached, child of '
+             'another tree (dict value / list element), node of the same tree, child of '
+             'the addressed container); the same calls under notify_on_change(False), '
+             'enable_type_check(False), allow_partial, allow_writable_accessors; '
+             + ('quick: constructors: the whole grid; mutators: the basic combinations '
+                '(3 placements x 4 node classes; 40% of them on the typed target) and a '
+                '3% sample of the rest; every other basic combination under one of the '
+                'contexts in turn, 2% of the rest'
+                if quick else 'all combinations')
+             + '; after the call every tree (result, target tree, other tree, the tree '
+               'the node itself ended in) is well-formed, no node object is met twice '
+               'within or across trees, the supplied node reports no parent that does '
+               'not store it, a replaced node does not keep a tree node as parent; a '
+               'call that raises although it succeeds with a distinct node per '
+               'occurrence is a failure'))
+  plain_fail = set()
+  with _Watchdog(10) as wd:
+    for entry, cl, pl, pc, nl, variant, setup, call, csetup, ccall in _alias_cases(quick, seed):
+      key = (variant, pl, nl, cl)
+      base = (entry, variant, pl, nl)
+      ent = f'{entry}@{cl}' if cl else entry
+      head = _ALIAS_HEAD + _alias_classes(setup + call)
+      try:
+        raised, vio = _alias_run(setup, call, wd)
+      except Exception as e:  # pylint: disable=broad-except
+        rec.case(f'one-call-aliasing/{entry}/setup-raises', key, False,
+                 f'building the inputs raised {type(e).__name__}: {e}', head + setup)
+        continue
+      if not vio and raised is None:
+        rec.case(f'one-call-aliasing/{ent}', key, True)
+        continue
+      # The same call with a distinct node per occurrence: is the input legal,
+      # and is the violation a matter of the aliasing at all?
+      try:
+        craised, cvio = _alias_run(csetup, ccall, wd)
+      except Exception:  # pylint: disable=broad-except
+        craised, cvio = None, []
+      ckinds = {v[0] for v in cvio}
+      if raised is not None and craised is None:
+        vio = [('raises-although-fine-with-distinct-nodes',
+                f'raised {type(raised).__name__}: {raised}',
+                'raise AssertionError("the call raised")')] + vio
+      if not vio:
+        rec.case(f'one-call-aliasing/{ent}', key, True)
+        continue
+      for v in vio:
+        vk, msg, tail = v[0], v[1], v[2]
+        pre = v[3] if len(v) > 3 else ''
+        if cl is None:
+          plain_fail.add(base + (vk,))
+        e = entry if cl is None or base + (vk,) in plain_fail else ent
+        if vk == 'raises-although-fine-with-distinct-nodes':
+          w = head + setup + call + '\n'
+        elif raised is not None:
+          e = entry + '!raised'
+          w = (head + setup + pre + 'try:\n' + textwrap.indent(call, '  ')
+               + f'\nexcept {type(raised).__name__}: pass\n' + tail + '\n')
+        else:
+          w = head + setup + pre + call + '\n' + tail + '\n'
+        cid = (f'{e}/{vk}' if vk in ckinds else f'one-call-aliasing/{e}/{pc}/{vk}')
+        rec.case(cid, key, False,
+                 message=f'[{variant}; node: {nl}; placement: {pl}] after `{call}`'
+                 + (f' (which raised {type(raised).__name__})' if raised is not None else '')
+                 + f': {msg}',
+                 witness=w)
+  return rec.result()
+
+
 DRIVERS = [drv_histories_exhaustive, drv_histories_random, drv_key_classes,
-           drv_self_insertion]
+           drv_self_insertion, drv_one_call_aliasing]
 
 
 def replay(rec):
